@@ -32,11 +32,39 @@ class SSeries(Model):
     (bool columns used with cnt)."""
     pytype = 'Series'
 
+    def __iter__(self):
+        raise TypeError('symbolic sequence is not iterable natively')
+
     def __init__(self, n, at, dtype, arr=None):
         self.n = lift(n)
         self.at = at
         self.dtype = dtype
         self.arr = arr
+        self.defd = None           # None: every cell holds a value; else closure row -> z3 Bool
+
+    def m_astype(self, ctx, ty):
+        from .engine import BuiltinRef
+        want = ty.name if isinstance(ty, BuiltinRef) else None
+        if want not in ('int', 'float', 'str', 'bool'):
+            raise Unsupported('astype target')
+        if self.dtype == 'unset':
+            if want == 'bool':
+                # object column holding NaN everywhere: bool(nan) is True
+                return SSeries(self.n, lambda i: SBool(True, 'npbool'), 'bool')
+            raise Unsupported(f'astype({want}) of a column of NaN objects')
+        if want == self.dtype or (want == 'float' and self.dtype == 'int'):
+            at = self.at
+            if want == 'float' and self.dtype == 'int':
+                out = SSeries(self.n, lambda i: SFloat(z3.ToReal(to_int_term(at(i))), False, 'npfloat'), 'float')
+            elif want == 'int':
+                out = SSeries(self.n, lambda i: SInt(to_int_term(at(i)), 'npint'), 'int')
+            elif want == 'float':
+                out = SSeries(self.n, lambda i: SFloat(*reversed(to_real_parts(at(i))), 'npfloat'), 'float')
+            else:
+                out = SSeries(self.n, at, self.dtype, self.arr)
+            out.defd = self.defd
+            return out
+        raise Unsupported(f'astype({want}) of a {self.dtype} column')
 
     def __getitem__(self, j):          # contract level
         return raw(self.at(lift(j)))
@@ -171,12 +199,87 @@ class SSelList(Model):
         return SStr(z3.Concat(*parts) if len(parts) > 1 else parts[0])
 
 
+LIB_DOC['pandas.DataFrame.iloc/loc/at[row, col]'] = ('cell read / write by row position (iloc, with columns.get_loc) or by row label on a '
+                                                    'RangeIndex (loc, at); a write changes that cell only')
+LIB_DOC['pandas.DataFrame.sort_values+reset_index'] = ('sort_values(col, inplace=True) then reset_index(drop=True, inplace=True): rows '
+                                                       'permuted (a bijection) into ascending order of col, NaN last; RangeIndex restored')
+LIB_DOC['pandas.Series.astype'] = 'astype(int|float|str|bool) on values already of that kind: same values'
+LIB_DOC['pandas.DataFrame.loc[:, col] = list'] = 'assigns the list element-wise to the column (lengths must match)'
+
+
+class ColRef:
+    def __init__(self, name):
+        self.name = name
+
+
+def _kind_of(v):
+    if isinstance(v, (bool, SBool)):
+        return 'bool'
+    if is_intlike(v):
+        return 'int'
+    if is_floatlike(v):
+        return 'float'
+    if isinstance(v, (str, SStr)):
+        return 'str'
+    raise Unsupported(f'cell value {v!r}')
+
+
+class _Columns(Model):
+    def __init__(self, table):
+        self.table = table
+
+    def m_get_loc(self, ctx, name):
+        if not isinstance(name, str):
+            raise Unsupported('get_loc of symbolic name')
+        if name not in self.table.cols:
+            from .engine import PyRaise
+            raise PyRaise('KeyError', name)
+        return ColRef(name)
+
+    def sym_contains(self, ctx, name):
+        return name in self.table.cols
+
+
+class _CellIndexer(Model):
+    def __init__(self, table, how):
+        self.table, self.how = table, how
+
+    def _parse(self, ctx, idx):
+        if not (isinstance(idx, tuple) and len(idx) == 2):
+            raise Unsupported(f'{self.how}[...] shape')
+        row, col = idx
+        if self.how == 'iloc':
+            if not isinstance(col, ColRef):
+                raise Unsupported('iloc with a column that is not columns.get_loc(name)')
+            col = col.name
+        else:
+            if not isinstance(col, str):
+                raise Unsupported(f'{self.how} with non-literal column')
+            if not self.table.index_is_range:
+                raise Unsupported(f'{self.how}[row, col] on a table whose index is not a RangeIndex')
+        return row, col
+
+    def sym_getitem(self, ctx, idx):
+        row, col = self._parse(ctx, idx)
+        return self.table.read_cell(ctx, row, col)
+
+    def sym_setitem(self, ctx, idx, val):
+        row, col = self._parse(ctx, idx)
+        if isinstance(row, slice) and row == slice(None, None, None):
+            return self.table.set_column_from_list(ctx, col, val)
+        self.table.write_cell(ctx, row, col, val)
+
+
 class STable(Model):
+    """DataFrame with symbolic row count, RangeIndex (unless between sort_values and reset_index) and named columns.
+    A column is an SSeries whose `defd(i)` says whether the cell holds a value (a fresh pd.DataFrame(index=..., columns=...)
+    holds NaN objects everywhere: defd = False)."""
     pytype = 'DataFrame'
 
     def __init__(self, n, cols: dict):
         self.n = lift(n)
         self.cols = cols         # name -> SSeries
+        self.index_is_range = True
 
     def col(self, name):
         return self.cols[name]
@@ -186,11 +289,165 @@ class STable(Model):
             if idx not in self.cols:
                 from .engine import PyRaise
                 raise PyRaise('KeyError', idx)
-            return self.cols[idx]
+            c = self.cols[idx]
+            if c.dtype == 'unset':
+                return c          # a column of NaN objects: only astype(bool) is modelled on it
+            if c.defd is not None:
+                f = smt.Forall(0, self.n, lambda i, c=c: c.defd(i), name='cd')
+                ctx.oblige(f'safe.column_defined.{idx}', f)
+                ctx.assume(f)
+            return c
         raise Unsupported('DataFrame index kind')
+
+    def sym_setitem(self, ctx, idx, val):
+        if isinstance(idx, str) and isinstance(val, SSeries):
+            new = SSeries(self.n, val.at, val.dtype, val.arr)
+            new.defd = val.defd
+            self.cols[idx] = new
+            return
+        raise Unsupported('DataFrame column assignment kind')
 
     def sym_len(self, ctx):
         return SInt(self.n)
+
+    def a_iloc(self, ctx):
+        return _CellIndexer(self, 'iloc')
+
+    def a_loc(self, ctx):
+        return _CellIndexer(self, 'loc')
+
+    def a_at(self, ctx):
+        return _CellIndexer(self, 'at')
+
+    def a_columns(self, ctx):
+        return _Columns(self)
+
+    def _row(self, ctx, row):
+        if not is_intlike(row):
+            raise Unsupported('row index kind')
+        r = to_int_term(row)
+        ctx.safe('row_index', z3.And(r >= 0, r < self.n), exc='IndexError')
+        ctx.hint(r)
+        return r
+
+    def read_cell(self, ctx, row, col):
+        r = self._row(ctx, row)
+        c = self.cols[col]
+        if c.defd is not None:
+            ctx.safe(f'cell_defined.{col}', c.defd(r))
+        return c.at(r)
+
+    def write_cell(self, ctx, row, col, val):
+        r = self._row(ctx, row)
+        if col not in self.cols:
+            raise Unsupported('cell write creating a column')
+        c = self.cols[col]
+        kind = _kind_of(val)
+        old_at, old_defd = c.at, c.defd
+        if c.dtype == 'unset':
+            at = lambda i, val=val: val
+            defd = lambda i, r=r: i == r
+        else:
+            if c.dtype != kind and not ({c.dtype, kind} <= {'int', 'float'}):
+                raise Unsupported(f'cell write changes column kind {c.dtype} -> {kind}')
+            at = lambda i, val=val, r=r, old_at=old_at: ite_val(i == r, val, old_at(i))
+            defd = None if old_defd is None else (lambda i, r=r, old_defd=old_defd: z3.Or(i == r, old_defd(i)))
+            if c.dtype == 'float':
+                kind = 'float'
+        new = SSeries(self.n, at, kind)
+        new.defd = defd
+        self.cols[col] = new
+
+    def set_column_from_list(self, ctx, col, val):
+        if isinstance(val, SList):
+            ctx.safe('setcol_len', val.len == self.n, exc='ValueError')
+            new = SSeries(self.n, val.elem, val.kind, arr=val.arr if val.kind == 'bool' else None)
+            new.defd = None
+            self.cols[col] = new
+            return
+        raise Unsupported('column assignment from this value')
+
+    def m_sort_values(self, ctx, by, inplace=False, **kw):
+        if kw or inplace is not True or not isinstance(by, str):
+            raise Unsupported('sort_values shape')
+        key = self.cols[by]
+        if key.defd is not None:
+            f = smt.Forall(0, self.n, lambda i: key.defd(i), name='cd')
+            ctx.oblige(f'safe.column_defined.{by}', f)
+            ctx.assume(f)
+        k = next(_permno)
+        pi = z3.Function(f'perm!{k}', z3.IntSort(), z3.IntSort())
+        inv = z3.Function(f'perminv!{k}', z3.IntSort(), z3.IntSort())
+        n = self.n
+        ctx.assume(smt.Forall(0, n, lambda i: z3.And(pi(i) >= 0, pi(i) < n, inv(pi(i)) == i), name='p'))
+        ctx.assume(smt.Forall(0, n, lambda i: z3.And(inv(i) >= 0, inv(i) < n, pi(inv(i)) == i), name='q'))
+        ctx.term_maps.append(pi)
+        old = dict(self.cols)
+        for name, c in old.items():
+            new = SSeries(n, (lambda i, c=c: c.at(pi(i))), c.dtype)
+            new.defd = None if c.defd is None else (lambda i, c=c: c.defd(pi(i)))
+            self.cols[name] = new
+        nk = self.cols[by]
+
+        def ordered(i, j):
+            ni, vi = to_real_parts(nk.at(i))
+            nj, vj = to_real_parts(nk.at(j))
+            return z3.And(z3.Implies(ni, nj), z3.Implies(z3.And(z3.Not(ni), z3.Not(nj)), vi <= vj))
+        ctx.assume(smt.Forall(0, n, ordered, arity=2, name='so'))
+        self.index_is_range = False
+        self.ghost_perm = (pi, inv)
+        return None
+
+    def m_reset_index(self, ctx, drop=False, inplace=False, **kw):
+        if kw or drop is not True or inplace is not True:
+            raise Unsupported('reset_index shape')
+        self.index_is_range = True
+        return None
+
+    def havoc(self, ctx):
+        n = self.n
+        cols = {}
+        for name, c in self.cols.items():
+            cols[name] = fresh_column(n, name, c.dtype, getattr(c, 'ty', None), with_defd=True)
+        t = STable(n, cols)
+        t.index_is_range = self.index_is_range
+        return t
+
+
+import itertools as _it
+_permno = _it.count()
+
+
+def fresh_column(n, name, kind, ty=None, with_defd=False, prefix='col'):
+    """column backed by fresh arrays"""
+    if kind == 'unset':
+        c = SSeries(n, lambda i: Opaque('unset cell'), 'unset')
+        c.defd = (lambda i: z3.BoolVal(False))
+        return c
+    if kind == 'float':
+        a = fresh(f'{prefix}_{name}', z3.ArraySort(z3.IntSort(), z3.RealSort()))
+        an = fresh(f'{prefix}_{name}_nan', BoolArr)
+        c = SSeries(n, lambda i: SFloat(a[i], an[i], ty or 'npfloat'), 'float')
+        c.arrs = (a, an)
+    elif kind == 'int':
+        a = fresh(f'{prefix}_{name}', z3.ArraySort(z3.IntSort(), z3.IntSort()))
+        c = SSeries(n, lambda i: SInt(a[i], ty or 'int'), 'int')
+        c.arrs = (a,)
+    elif kind == 'bool':
+        a = fresh(f'{prefix}_{name}', BoolArr)
+        c = SSeries(n, lambda i: SBool(a[i], ty or 'bool'), 'bool', arr=a)
+        c.arrs = (a,)
+    elif kind == 'str':
+        a = fresh(f'{prefix}_{name}', z3.ArraySort(z3.IntSort(), z3.StringSort()))
+        c = SSeries(n, lambda i: SStr(a[i]), 'str')
+        c.arrs = (a,)
+    else:
+        raise Unsupported(f'column kind {kind}')
+    c.ty = ty
+    if with_defd:
+        d = fresh(f'{prefix}_{name}_def', BoolArr)
+        c.defd = (lambda i: d[i])
+    return c
 
 
 class SChunk(Model):
